@@ -19,10 +19,53 @@ ASSUMPTIONS = suite.ENGINE_ASSUMPTIONS + [
 ]
 
 
+def _resume_runs(env: Env, out: Outcome, n: int) -> None:
+    """snapshot a run at a scheduler-chosen quiet point (several invocations of a multi-worker step in flight / queued), stop it,
+    resume from the JSON snapshot: the resumed run is work-conserving from its first tick on"""
+    import copy
+    import random
+
+    from ..engine import live, specgen
+    rng = random.Random(env.rng.randrange(1 << 30))
+    jobs = []
+    if env.replay is not None and isinstance(env.replay.get("payload", {}).get("case"), dict) and "resume" in env.replay["payload"]["case"]:
+        c = env.replay["payload"]["case"]["resume"]
+        jobs.append((c["spec"], c["seed"], c.get("actions1"), c.get("actions2")))
+    for _ in range(n):
+        spec = specgen.gen_spec(rng, family=rng.choice(["fanin", "retry", "general"]), allow_timeout=False) if rng.random() < 0.6 else specgen.gen_det_spec(rng)
+        spec["externals"] = [e for e in spec.get("externals", []) if e["op"] == "send"]
+        spec["externals"].append({"op": "snapshot_stop", "after_quiet": rng.choice([0, 1, 1, 2, 3, 4])})
+        spec.pop("timeout", None)
+        jobs.append((spec, rng.randrange(1 << 30), None, None))
+    resumed = []
+    for spec, seed, a1, a2 in jobs:
+        tr1 = live.run_spec(spec, seed=seed, replay_actions=a1)
+        out.evaluations += 1
+        snaps = [s for s in tr1.snapshots if s.get("stopped")]
+        if not snaps:
+            out.count("resume:no_snapshot")
+            continue
+        spec2 = copy.deepcopy(spec)
+        spec2["externals"] = copy.deepcopy([e for e in getattr(tr1, "remaining_externals", []) if e["op"] == "send"])
+        spec2["_resumed"] = True
+        tr2 = live.run_spec(spec2, seed=seed + 1, replay_actions=a2, resume_from=snaps[0]["dict"])
+        resumed.append(tr2)
+        pend = sum(len(w.get("queue", [])) + len(w.get("in_progress", [])) for w in snaps[0]["dict"].get("workers", {}).values()) if isinstance(snaps[0]["dict"], dict) else 0
+        out.count(f"resume:pending_at_snapshot:{min(pend, 4)}")
+        out.count("resume:outcome:" + tr2.outcome[0])
+        if pend:
+            out.nontrivial(("resume", repr(spec), tuple(tr1.actions)))
+        for v in monitors.mon_c03(tr2):
+            v.replay = {"resume": {"spec": spec, "seed": seed, "actions1": tr1.actions, "actions2": tr2.actions}}
+            out.violations.append(v)
+    suite.runner_corr(out, resumed, "engine-runner-resumed")
+
+
 def run(env: Env) -> Outcome:
     out = Outcome()
-    out.rule = ("direct (state,tick) pairs + live scripted workflows (retry delays, waiters, fan-out) under random gate schedules; "
+    out.rule = ("direct (state,tick) pairs + live scripted workflows (retry delays, waiters, fan-out) under random gate schedules; runs snapshotted at a quiet point and resumed from JSON; "
                 "non-trivial = more than 2 ticks; distinct by (spec, schedule)")
     suite.direct_corr(env, out, env.budget(3000, 60000))
     suite.live_runs(env, out, env.budget(400, 8000), [monitors.mon_c03], extra_specs=suite.load_corpus("C03"))
+    _resume_runs(env, out, env.budget(150, 3000))
     return out
